@@ -570,6 +570,10 @@ func TestRun(t *testing.T) {
 				if i >= len(cases) {
 					return
 				}
+				if rec.NViolations() > 12 {
+					rec.Count("cases_skipped_after_violations", 1)
+					continue
+				}
 				c := cases[i]
 				if c.Workload == "pure-server" {
 					pureServer(rec, c, r)
